@@ -181,7 +181,8 @@ def record_random(ctx, rng, count, nmax):
             letters = [rng.randrange(4) for _ in range(n)]
             sg2 = rng.randrange(4)
             ev.append(dict(op='str_to_F2', letters=letters, sign=sg2, res=li(G.pauli_str_to_F2(''.join(LET[k] for k in letters), 1j ** sg2))))
-            ev.append(dict(op='F2_to_index', a=li(a), digits=int_to_digits(G.pauli_F2_to_index(a.copy()), n)))
+            _i = G.pauli_F2_to_index(a.copy())
+            ev.append(dict(op='F2_to_index', a=li(a), digits=int_to_digits(_i, n), inrange=bool(0 <= int(_i) < 4 ** n)))
             h = rng.choice([None, True, False])
             sd = rng.randrange(10 ** 6)
             ev.append(dict(op='rand_pauli', n=n, herm=str(h), seed=sd, res=li(numqi.random.rand_pauli(n, is_hermitian=h, seed=sd).F2)))
@@ -189,7 +190,7 @@ def record_random(ctx, rng, count, nmax):
             ev.append(dict(op='exception', where='binary form n=%d' % n, error=repr(ex)))
     # index forms up to 4^31 (digit sequences keep TLC within 32 bits); single and batched code paths
     for i in range(count // 2):
-        n = rng.choice([1, 2, 5, 11, 16, 20, 31])
+        n = rng.choice([1, 2, 5, 11, 16, 20, 31, 32])
         dg = [rng.randrange(4) for _ in range(n)]
         if i % 7 == 0:
             dg = [3] * n           # largest index 4^n - 1
@@ -198,13 +199,16 @@ def record_random(ctx, rng, count, nmax):
             ev.append(dict(op='index_to_F2', digits=dg, mode='single', res=li(G.pauli_index_to_F2(idx, n))))
             ev.append(dict(op='index_to_str', digits=dg, mode='single', letters=[LET.index(ch) for ch in G.pauli_index_to_str(idx, n)]))
             s = ''.join(LET[k] for k in dg)
-            ev.append(dict(op='str_to_index', letters=dg, mode='single', digits=int_to_digits(G.pauli_str_to_index(s), n)))
+            _i = G.pauli_str_to_index(s)
+            ev.append(dict(op='str_to_index', letters=dg, mode='single', digits=int_to_digits(_i, n), inrange=bool(0 <= int(_i) < 4 ** n)))
             arr = np.array([idx, idx], dtype=np.uint64)
             ev.append(dict(op='index_to_F2', digits=dg, mode='batch', res=li(G.pauli_index_to_F2(arr, n)[1])))
             ev.append(dict(op='index_to_str', digits=dg, mode='batch', letters=[LET.index(ch) for ch in G.pauli_index_to_str(arr, n)[1]]))
-            ev.append(dict(op='str_to_index', letters=dg, mode='batch', digits=int_to_digits(G.pauli_str_to_index(np.array([s, s]))[0], n)))
+            _i = G.pauli_str_to_index(np.array([s, s]))[0]
+            ev.append(dict(op='str_to_index', letters=dg, mode='batch', digits=int_to_digits(_i, n), inrange=bool(0 <= int(_i) < 4 ** n)))
             f2 = np.array([[0, 0] + [1 if k in (1, 2) else 0 for k in dg] + [1 if k in (2, 3) else 0 for k in dg]] * 2, dtype=np.uint8)
-            ev.append(dict(op='F2_to_index', a=li(f2[0]), mode='batch', digits=int_to_digits(G.pauli_F2_to_index(f2)[1], n)))
+            _i = G.pauli_F2_to_index(f2)[1]
+            ev.append(dict(op='F2_to_index', a=li(f2[0]), mode='batch', digits=int_to_digits(_i, n), inrange=bool(0 <= int(_i) < 4 ** n)))
         except Exception as ex:
             ev.append(dict(op='exception', where='index form n=%d' % n, error=repr(ex)))
     return ev
